@@ -182,13 +182,19 @@ def check_message(ctx, fmt, spec, raw, m, same_offset, atts=True, quoted=False):
         want = [(f, t, hashlib.sha256(d).hexdigest()) for f, t, d in spec["attachments"]]
         if spec.get("forwarded"):
             got = [a for a in got if a[1] != "message/rfc822"]
+        if len(got) == len(want):         # an attachment without file name gets an invented one: not compared
+            got = [((None,) + tuple(g[1:])) if w[0] is None else g for g, w in zip(got, want)]
         if fmt == "mbox" and want and not got:
             ctx.finding("mbox-no-attachments", "mbox: the result carries no attachments", rep("attachments", got, want))
         elif got != want:
-            ctx.finding(f"{fmt}:attachments:{tag}:{spec['att_name_style']}", f"{fmt}: attachments {got!r} instead of {want!r}",
+            empty = [f for f, _, d in spec["attachments"] if len(d) == 0]
+            key = (f"{fmt}:attachments:count:{'zero-byte' if empty else 'nonempty'}" if len(got) != len(want)
+                   else f"{fmt}:attachments:{tag}:{spec['att_name_style']}")
+            ctx.finding(key, f"{fmt}: {len(got)} attachment(s) instead of {len(want)}"
+                        + (f" (zero-byte attachment(s) {empty})" if empty and len(got) != len(want) else "") + f": {got!r} instead of {want!r}",
                         rep("attachments", got, want))
         # each supported attachment vs the same bytes alone
-        if [a[:3] for a in c["att"] if a[1] not in ("image/gif", "message/rfc822")] == want:
+        if got == want:
             try:
                 via = [(type(r).__name__, r.get_full_text()) for r in m.iterate_supported_attachments()]
                 err = None
@@ -401,7 +407,7 @@ def run(ctx):
         "C16_unfold_inverts_folding", "C16_decode_fallback", "C16_address_list",
         "C16_full_text_plain_else_html", "C16_attachment_routing", "C16_attachment_same_as_alone", "C16_attachments_independent",
         "C16_attachment_contribution_context_free", "C16_msg_recipient_angle", "C16_msg_recipients_split", "C16_msg_quoted_comma_refuted",
-        "C16_msg_body_mapping"])
+        "C16_msg_body_mapping", "C16_eml_attachments_count"])
     ctx.prove("C16/Inst.v", ["Gen/C16Tables.vo", "C16/Corr.vo"], expected=[
         "C16_tables_wf", "C16_mime_fallback_ok", "C16_fallback_paths_lower_case", "C16_from_pattern_is_modelled",
         "C16_fold_pattern_is_modelled", "C16_literals"])
@@ -461,6 +467,10 @@ def run(ctx):
     fixture = (REPO / "sharepoint2text/tests/resources/modern_ms/headings.docx").read_bytes()
     n_specs = ctx.n(160, 1500)
     specs, lossy = [], 0
+    for _ in range(ctx.n(30, 250)):
+        tm_ = G.tiny_attachment_message(rng)
+        if tm_ is not None:
+            specs.append(tm_)
     while len(specs) < n_specs and lossy < 5 * n_specs:
         sp = G.gen_spec(rng, fixture)
         if rng.random() < 0.06:
@@ -522,7 +532,7 @@ def run(ctx):
                            + coq_str(em.body_plain) + ", " + coq_str(em.body_html) + ", "
                            + coq_list([f"({coq_str(a.filename)}, {coq_str(a.mime_type)}, {coq_bool(a.is_supported_mime_type)})" for a in em.attachments]))
                     # mailparser invents random names for nameless attachments on every parse: compare names only when given
-                    if all(f for f, _ in al):
+                    if all(f for f, _ in al) and all(f is not None for f, _, _ in sp["attachments"]):
                         eml_cases.append(f"({c_pairs(tl(mp.to))}, {c_pairs(tl(mp.cc))}, {coq_list([coq_str(x) for x in tp])}, "
                                          f"{coq_list([coq_str(x) for x in th])}, {c_pairs(al)}, ({exp}))")
                         eml_info.append(raw[:300])
